@@ -1,44 +1,43 @@
 import sys, time
 sys.path.insert(0, "/verif")
-from lib import env; env.setup()
-from migen import *
-from litex.soc.cores import code_8b10b as c
-from lib.bench.kernel import Bench
+from lib import env
+env.setup()
+import icontract
+from litex.soc.integration import soc as S
+from litex.soc.interconnect import wishbone
 
-class Top(Module):
-    def __init__(self, nwords=1, lsb=False):
-        self.submodules.enc = c.Encoder(nwords, lsb)
-        self.decs = [c.Decoder(lsb) for _ in range(nwords)]
-        self.submodules += self.decs
-        for i in range(nwords):
-            self.comb += self.decs[i].input.eq(self.enc.output[i])
+class Broken(Exception): pass
+N = {"inv":0, "ens":0}
+def inv_regions(self):
+    N["inv"] += 1
+    return True
+def ens_add(self, name, region, result):
+    N["ens"] += 1
+    return True
 
-class Ag:
-    def __init__(self, top, seq):
-        self.top, self.seq = top, seq
-        self.log = []
-    def signals(self):
-        t = self.top
-        return [t.enc.output[0], t.enc.disparity[0], t.decs[0].d, t.decs[0].k, t.decs[0].invalid]
-    def step(self, v, c):
-        t = self.top
-        self.log.append((c, v[t.enc.output[0]], v[t.enc.disparity[0]], v[t.decs[0].d], v[t.decs[0].k], v[t.decs[0].invalid]))
-        if c < len(self.seq):
-            d, k = self.seq[c]
-            return {t.enc.d[0]: d, t.enc.k[0]: k}
-        return {t.enc.d[0]: 0, t.enc.k[0]: 0}
-    def done(self):
-        return len(self.log) > len(self.seq) + 6
+class MonBus(S.SoCBusHandler):
+    @icontract.ensure(ens_add, error=Broken)
+    def add_region(self, name, region):
+        return S.SoCBusHandler.add_region(self, name, region)
 
-top = Top()
-seq = [(i, 0) for i in range(1, 20)]
-b = Bench(top, cap=10000)
-a = b.add(Ag(top, seq))
-t0 = time.time()
-b.run()
-for l in a.log[:12]:
-    print(l[0], format(l[1], "010b"), l[2:])
-seq = [(i & 255, 0) for i in range(3000)]
-top = Top()
-b = Bench(top, cap=10000); a = b.add(Ag(top, seq))
-t0 = time.time(); b.run(); print("cycles/s", 3000/(time.time()-t0))
+t=time.time()
+MonBus = icontract.invariant(inv_regions, error=Broken)(MonBus)
+print("decorate", time.time()-t)
+b = MonBus(standard="wishbone", data_width=32, address_width=32)
+print(N)
+b.add_region("io", S.SoCIORegion(0x8000_0000, 0x8000_0000, cached=False))
+print(N)
+b.add_slave("a", wishbone.Interface(data_width=32, address_width=32), S.SoCRegion(origin=0x1000, size=0x1000))
+print(N)
+try:
+    b.add_slave("a", wishbone.Interface(data_width=32, address_width=32), S.SoCRegion(origin=0x1000, size=0x1000))
+except S.SoCError as e:
+    env.restore_stderr()
+    print("rejected", b.regions.keys())
+print(N)
+b.add_master("m", wishbone.Interface(data_width=32, address_width=32))
+b.add_slave("b", wishbone.Interface(data_width=32, address_width=32), S.SoCRegion(size=0x1000, cached=False))
+print(b.regions["b"].origin)
+t=time.time()
+b.finalize()
+print("fin", time.time()-t, N, type(b._interconnect))
